@@ -1,6 +1,6 @@
 """C13 - decisions depend on uncertainty exactly as declared."""
 from harness import core
-from checks import suite_partition
+from checks import suite_partition, suite_partition_trace
 
 
 def main(tier):
@@ -12,6 +12,7 @@ def main(tier):
     rep.assumptions = ['TLC 1.8 and the CommunityModules', 'HiGHS (scipy) solves the small LPs to 1e-6',
                        'concretisation in harness/replay_partition.py (pinned supports z = Zhat[s], box supports for masks)']
     suite_partition.run(rep, tier, props=('C13',))
+    suite_partition_trace.run(rep, tier, props=('C13',))       # code -> spec: recorded traces validated by TLC
     return rep.finish()
 
 
